@@ -66,4 +66,20 @@ theorem popInto_ok (n key : Str) (st : List (Str × Str) × List (Str × Str)) :
   · simp only [h, if_true, popName_ok n st.2 h]; rfl
   · simp only [h]; rfl
 
+/-- closed form of the header step: both guarded `pop`s succeed -/
+theorem addHeaders_eq (vars hs : List (Str × Str)) :
+    addHeaders vars hs = .ok (
+      let st1 := if hasName (str "Content-Type") hs then
+        (dset (str "CONTENT_TYPE") (joinWith [cComma] (valuesOf (str "Content-Type") hs)) vars,
+          hs.filter (fun p => p.1 ≠ str "Content-Type")) else (vars, hs)
+      let st2 := if hasName (str "Content-Length") st1.2 then
+        (dset (str "CONTENT_LENGTH") (joinWith [cComma] (valuesOf (str "Content-Length") st1.2)) st1.1,
+          st1.2.filter (fun p => p.1 ≠ str "Content-Length")) else st1
+      (items st2.2).foldl (fun acc kv => dset (cgiName kv.1) kv.2 acc) st2.1) := by
+  unfold addHeaders
+  rw [popInto_ok]
+  simp only [bind, Except.bind]
+  rw [popInto_ok]
+  rfl
+
 end TornadoModel.C47
